@@ -22,10 +22,13 @@ RULE = ("(a) the catalogue product crop (37) x soil (15) x strategy (6) = 3330 c
         "ends on / one day around a planting date and at year boundaries, starts after planting, partial seasons; (d) Hypothesis: "
         "random cell + generated options, field management, groundwater, initial water content, CO2, off-season, random weather. "
         "Oracle: the run terminates within (days in the window) steps with every reported number finite (z_gw exempt without a "
-        "table), or raises one of the documented rejections; anything else is a violation bucketed by (exception type, innermost "
-        "aquacrop frame). One evaluation per run. Non-trivial run: completed >= 1 season; distinct = configuration hash.")
+        "table), or raises one of the documented rejections AND the configuration meets that rejection's documented condition "
+        "(reference computation: degree-day sum from every scheduled planting date to the end of the window vs. the configured "
+        "maturity, first day beyond maturity >= 365, window > 580 years, weather table not covering the window); anything else is "
+        "a violation bucketed by (exception type, innermost aquacrop frame) or 'unjustified_rejection:<kind>'. Non-termination of "
+        "the initialisation is decided by a deterministic budget of function calls and of executed package source lines. One evaluation per run. Non-trivial run: completed >= 1 season; distinct = configuration hash.")
 ASSUMPTIONS = [
-    "documented rejections are recognised by type + message + raising module (date format, weather coverage, > 580 years, too few growing degree days, more than a year to maturity)",
+    "documented rejections are recognised by type + message + raising module (date format, weather coverage, > 580 years, too few growing degree days, more than a year to maturity); whether a degree-day rejection is warranted is not decided for SwitchGDD=1 crops (calendar converted from the weather) and for sums within 1e-6 of maturity (label rejection_undecided)",
     "a planting date on 29 February cannot recur in consecutive years and is not generated",
     "known finding F16c (window for which the library schedules no season -> IndexError) is reported as KNOWN-FINDING, keyed to that exception site",
 ]
